@@ -224,7 +224,7 @@ Proof. intros. unfold check_src2, check_src. apply g_check_ext. intros. apply tr
 Lemma memop_src_refines : forall c o code flags nparams info0,
   memop_of_greason (greason_of c o code flags nparams info0) = memop_of_reason (reason_of c o code flags nparams info0).
 Proof.
-  intros. unfold greason_of, reason_of.
+  intros. unfold greason_of, reason_of, g_win_av_guard. rewrite Z.geb_leb.
   destruct (g_reason_family o =? 0).
   { destruct ((code =? WIN_EXCEPTION_ACCESS_VIOLATION) && (1 <=? nparams) && existsb (Z.eqb info0) WIN_ACCESS_TYPES); reflexivity. }
   destruct (g_reason_family o =? 1).
@@ -283,7 +283,7 @@ Lemma gpf_src_refines : forall c o code flags nparams info0 a,
   = is_gpf (os_class o) (reason_of c o code flags nparams info0) a.
 Proof.
   intros. destruct (os_class o) eqn:Eo.
-  - (* Windows *) destruct o; try discriminate Eo. rewrite g_gpf_win. unfold greason_of, reason_of. fam.
+  - (* Windows *) destruct o; try discriminate Eo. rewrite g_gpf_win. unfold greason_of, reason_of, g_win_av_guard. rewrite Z.geb_leb. fam.
     destruct ((code =? WIN_EXCEPTION_ACCESS_VIOLATION) && (1 <=? nparams) && existsb (Z.eqb info0) WIN_ACCESS_TYPES); reflexivity.
   - (* macOS *) destruct o; try discriminate Eo. rewrite g_gpf_mac. unfold greason_of, reason_of. fam.
     destruct ((code =? MAC_EXC_BAD_ACCESS) && negb (existsb (Z.eqb flags) MAC_BAD_ACCESS_KERN_TYPES) && (gcpu_eqb c GX86 || gcpu_eqb c GX86_64));
